@@ -325,7 +325,7 @@ func (s *Sim) opC18Badge() {
 			r.Probe("c18_no_pairing_now")
 		}
 		u1 := k.badgeUsers[r.Draw("ops", len(k.badgeUsers))]
-		u2 := k.badgeUsers[(r.Draw("ops", len(k.badgeUsers)-1)+1+indexOfAcc(k.badgeUsers, u1))%len(k.badgeUsers)]
+		u2 := k.badgeUsers[(r.Draw("ops", len(k.badgeUsers)-1)+1+c18IndexOfAcc(k.badgeUsers, u1))%len(k.badgeUsers)]
 		alloc := uint64(50 + r.Draw("ops", 3000))
 		epoch := s.EpochStart()
 		cu := uint64(1 + r.Draw("ops", 40))
@@ -378,7 +378,7 @@ func (s *Sim) opC18Badge() {
 	}
 }
 
-func indexOfAcc(l []*Account, a *Account) int {
+func c18IndexOfAcc(l []*Account, a *Account) int {
 	for i, x := range l {
 		if x == a {
 			return i
